@@ -37,6 +37,31 @@ def rowIter : Loader → List RowData → Option (List (String × Nat)) × List 
   | .headingRow, [] => (none, [])
   | .headingRow, hdr :: body => (some (headingSchema hdr), body)
 
+/-! ## the `Sheet` object over its life: `set_schema`, `set_schema_loader`, any number of passes -/
+
+/-- what a `Sheet` keeps between calls: its loader and the schema bound to it (if any) -/
+structure Sheet where
+  loader : Loader := .none
+  schema : Option (List (String × Nat)) := none
+  deriving Repr, DecidableEq
+
+inductive SOp
+  | setSchema (s : List (String × Nat))     -- `set_schema`: binds the schema AND installs the do-nothing loader
+  | setLoader (l : Loader)                  -- `set_schema_loader`
+  | pass (rows : List RowData)              -- one complete `rows()` pass over what the unpacker delivers this time
+  deriving Repr
+
+/-- one operation: the new sheet state and, for a pass, (schema in force, rows delivered) -/
+def Sheet.step (s : Sheet) : SOp → Sheet × Option (Option (List (String × Nat)) × List RowData)
+  | .setSchema sch => ({ loader := .none, schema := some sch }, none)
+  | .setLoader l => ({ s with loader := l }, none)
+  | .pass rows =>
+    match rowIter s.loader rows with
+    | (some sch, body) => ({ s with schema := some sch }, some (some sch, body))   -- the header phase re-binds the schema
+    | (none, body) => (s, some (s.schema, body))
+
+def Sheet.run (s : Sheet) (ops : List SOp) : Sheet := ops.foldl (fun s op => (s.step op).1) s
+
 /-! ## `WBNav.name`, `Row.values` -/
 
 def lookup {α : Type} (k : String) : List (String × α) → Option α
